@@ -510,6 +510,38 @@ def rule_WL10(rep, prog, q):
         rep.unknown(rid, "fewer than 3 readers of the thread's wlh found (%d)" % n)
 
 
+def rule_MP11(rep, prog, q):
+    rid = rep.rule("C03-MP11", "dispatch_async_and_wait through a hierarchy: the lock kind recorded in the waiter context for the next level is the kind that level is "
+                   "acquired with (same value: barrier iff that level's width is 1), and the queue reported back as 'where the item ran' is read after the "
+                   "rebased thread frame was popped (the queue really draining, not the submitted-to queue)", floor=2)
+    fn = prog.fn("_dispatch_async_and_wait_recurse")
+    rep.saw(fn)
+    one = calls_named(fn, "_dispatch_async_and_wait_recurse_one")
+    sts = [st for st in fn.all_insts() if st.op == "store" and "dc_flags" in prog.fields(st) and root_ptr(fn, st.d["ptr"]["base"]) == ("a", 1)]
+    if len(one) != 1 or not sts:
+        rep.unknown(rid, "anchor vanished in _dispatch_async_and_wait_recurse (acquire calls=%d, dc_flags stores=%d)" % (len(one), len(sts)))
+    else:
+        ph = fn.inst(one[0].ops[2])
+        nxt = [tuple(v[:2]) for v, frm in ph.ops if fn.inst(v) is not None] if (ph is not None and ph.op == "phi") else []
+        for st in sts:
+            rep.require(rid, tuple(st.ops[0][:2]) in nxt, st.loc, fn.name, "waiter-flags-of-previous-level",
+                        "_dispatch_async_and_wait_recurse stores into the waiter's dc_flags a value that is not the one the next level is acquired with (e.g. the "
+                        "previous level's barrier bit): a waiter pushed onto a concurrent level still flagged as a barrier is handed the full barrier lock, "
+                        "which the non-barrier completion never gives back - the level stays locked and everything behind it is stranded", sample={"store": st.loc})
+    fn = prog.fn("_dispatch_async_and_wait_invoke")
+    rep.saw(fn)
+    pops = calls_named(fn, "_dispatch_thread_frame_pop")
+    cur = calls_named(fn, "_dispatch_queue_get_current")
+    sts = [st for st in fn.all_insts() if st.op == "store" and "dc_other" in prog.fields(st) and fn.inst(list(root_ptr(fn, st.ops[0]))) in cur]
+    if not pops or not sts:
+        rep.unknown(rid, "anchor vanished in _dispatch_async_and_wait_invoke (frame pops=%d, dc_other <- current-queue stores=%d)" % (len(pops), len(sts)))
+    for st in sts:
+        c = fn.inst(list(root_ptr(fn, st.ops[0])))
+        rep.require(rid, any(fn.dominates(p_, c) for p_ in pops), st.loc, fn.name, "stop-queue-read-under-rebased-frame",
+                    "_dispatch_async_and_wait_invoke reads the current queue for dc_other while the rebased frame (top_dq) is still installed: the waiter's "
+                    "*_complete_recurse(top_dq, stop_dq = top_dq) returns at once and the queues it locked on the way down are never unlocked", sample={"store": st.loc})
+
+
 def run(rep, tier="quick", srcdir=None, only=None):
     prog, units = load(UNITS, tier, srcdir)
     rep.units = units
@@ -536,6 +568,8 @@ def run(rep, tier="quick", srcdir=None, only=None):
         rule_MP9(rep, prog, q)
     if want("C03-WL10"):
         rule_WL10(rep, prog, q)
+    if want("C03-MP11"):
+        rule_MP11(rep, prog, q)
 
 
 MANIFEST = {
